@@ -66,7 +66,7 @@ type miscCredsCfg struct {
 	// (0 invalid/unspecified, 1 none, 2 integrity only, 3 privacy and integrity)
 	Level int `json:"level,omitempty"`
 	// AddrNet: Network() of the simulated addresses (tcp | unix)
-	AddrNet string `json:"addr_net,omitempty"`
+	AddrNet string         `json:"addr_net,omitempty"`
 	Dial    []miscCred     `json:"dial,omitempty"`
 	Calls   []miscCallCred `json:"calls,omitempty"`
 	// ProbeDial: additionally try grpc.NewClient with insecure credentials
@@ -132,7 +132,7 @@ func (t *miscTC) Info() credentials.ProtocolInfo {
 	return credentials.ProtocolInfo{SecurityProtocol: "simsec"}
 }
 func (t *miscTC) Clone() credentials.TransportCredentials { c := *t; return &c }
-func (t *miscTC) OverrideServerName(string) error        { return nil }
+func (t *miscTC) OverrideServerName(string) error         { return nil }
 
 // ---- the model ----
 
